@@ -46,7 +46,7 @@ def corr_encode(ctx, protos, per_proto, ns=(0, 1, 2)):
             n = ns[i % len(ns)]
             impl, _ = real_encode_outcome(p, a, n)
             args = ' '.join(vlib.z(a[x[0]]) for x in p['encode_parameters'])
-            cases.append(('(enc_%s %d%%nat %s)' % (name, n, args), impl))
+            cases.append(('(tree_eval (enc_%s %d%%nat %s))' % (name, n, args), impl))
             m.append((p, a, n, impl))
         ncases += len(cases)
         files.append((name, cases, m))
